@@ -201,6 +201,14 @@ Definition build (vs : list V3) (ts : list tri) : res mesh :=
   | None => Throw
   | Some ts' => Ok (update (update (mkMesh g im ts')))
   end.
+(* the same into a mesh object whose private geometry already holds the vertices g0 of an earlier load
+   (Mesh::clear, called by Mesh::load, empties vertices() and triangles() but not the geometry) *)
+Definition build_on (g0 : list V3) (vs : list V3) (ts : list tri) : res mesh :=
+  let (g, im) := add_vertices g0 vs in
+  match map_tris (nth_error im) ts with
+  | None => Throw
+  | Some ts' => Ok (update (update (mkMesh g im ts')))
+  end.
 (* the same construction without the orientation repair (the harness uses it to obtain inconsistent meshes) *)
 Definition build_raw (vs : list V3) (ts : list tri) : res mesh :=
   let (g, im) := add_vertices [] vs in
@@ -300,12 +308,13 @@ Definition save_tri (m : mesh) : res (list tok) :=
       Ok ([TW wDash; TNum (nv m); TNL] ++ flat_map (vline true) (coords m)
           ++ [TW wDash; TNum (nt m); TNum (nt m); TNum (nt m); TNL] ++ flat_map (tline false) lt)
   end.
-Definition load_tri (s : list tok) : res mesh :=
-  parsed (olet s1 <- rd_word wDash s ;; olet (np, s2) <- rd_nat s1 ;;
+Definition parse_tri (s : list tok) : option (list V3 * list tri) :=
+         (olet s1 <- rd_word wDash s ;; olet (np, s2) <- rd_nat s1 ;;
           olet (vs, s3) <- rd_vlines false true np s2 ;;
           olet s4 <- rd_word wDash s3 ;; olet (_, s5) <- rd_nat s4 ;; olet (_, s6) <- rd_nat s5 ;; olet (ntr, s7) <- rd_nat s6 ;;
           olet (ts, _) <- rd_tlines false false ntr s7 ;;
           Some (vs, ts)).
+Definition load_tri (s : list tok) : res mesh := parsed (parse_tri s).
 
 (* ---- OFF (the magic word is read but a mismatch is not reported: the exception object is never thrown) *)
 Definition save_off (m : mesh) : res (list tok) :=
@@ -315,12 +324,18 @@ Definition save_off (m : mesh) : res (list tok) :=
       Ok ([TW wOFF; TNL; TNum (nv m); TNum (nt m); TNum 0; TNL] ++ flat_map (vline false) (coords m)
           ++ flat_map (tline true) lt)
   end.
-Definition load_off (s : list tok) : res mesh :=
-  parsed (olet (_, s1) <- rd_str s ;; olet (np, s2) <- rd_nat (skipc false s1) ;;
+Definition parse_off (s : list tok) : option (list V3 * list tri) :=
+         (olet (_, s1) <- rd_str s ;; olet (np, s2) <- rd_nat (skipc false s1) ;;
           olet (ntr, s3) <- rd_nat s2 ;; olet (_, s4) <- rd_nat s3 ;;
           olet (vs, s5) <- rd_vlines false false np s4 ;;
           olet (ts, _) <- rd_tlines false true ntr s5 ;;
           Some (vs, ts)).
+Definition load_off (s : list tok) : res mesh := parsed (parse_off s).
+(* loading into a used mesh object: same parsers, the points go through add_vertices of the geometry as it is *)
+Definition reload_tri (g0 : list V3) (s : list tok) : res mesh :=
+  match parse_tri s with None => Fail | Some (vs, ts) => build_on g0 vs ts end.
+Definition reload_off (g0 : list V3) (s : list tok) : res mesh :=
+  match parse_off s with None => Fail | Some (vs, ts) => build_on g0 vs ts end.
 
 (* ---- BND *)
 Definition save_bnd (m : mesh) : res (list tok) :=
@@ -364,6 +379,12 @@ Definition load_bnd (s : list tok) : res mesh :=
   | None => Fail
   | Some None => Throw
   | Some (Some (vs, ts)) => build vs ts
+  end.
+Definition reload_bnd (g0 : list V3) (s : list tok) : res mesh :=
+  match load_bnd_parse s with
+  | None => Fail
+  | Some None => Throw
+  | Some (Some (vs, ts)) => build_on g0 vs ts
   end.
 
 (* ---- VTK (writer only in this build: load() throws VTKError without USE_VTK) *)
@@ -457,6 +478,12 @@ Definition load_mesh (s : list bitem) : res mesh :=
   | None => Fail
   | Some None => Throw
   | Some (Some (vs, ts)) => build vs ts
+  end.
+Definition reload_mesh (g0 : list V3) (s : list bitem) : res mesh :=
+  match load_mesh_parse s with
+  | None => Fail
+  | Some None => Throw
+  | Some (Some (vs, ts)) => build_on g0 vs ts
   end.
 
 (* ------------------------------------------------------------------ Mesh::merge (om_mesh_concat) *)
